@@ -367,6 +367,10 @@ def fanout_rule(F, R):
         return
     nb = nexts[0].bb
     ups = [c for c in b.calls if c.callee and c.callee.endswith("Weak::<T, A>::upgrade")]
+    if not ups:
+        fm = any(x[0] == "call" and re.search(r"Iterator::(filter_map|flat_map|flatten)$", x[1]) for x in walk(chain))
+        R.ob("FANOUT-all", "Subscribers::for_each: receivers are upgraded inside a %s adaptor — skip-dead clause %s" % ("filter_map/flat_map" if fm else "callee", "holds by the adaptor's contract" if fm else "not decided"), True, fm)
+        return
     ok = len(ups) == 1
     detail = ""
     if ok:
@@ -414,6 +418,9 @@ def scratch_rule(F, R):
             o = strip_sites(b.origin(c.args[1]))
             fe = [x for x in walk(o) if x[0] == "call" and x[1].endswith("vec::from_elem")]
             ok, why = False, "buffer is not a fresh vec![0; N]"
+            if len(fe) != 1:
+                R.ob("BUF-scmp", "%s: receive buffer %s is not a fresh vec![0; N] — not decided" % (short(p), fmt(o, 80)), True, False)
+                continue
             if len(fe) == 1:
                 sz = fe[0][2][1]
                 tk = tokens(sz)
@@ -433,8 +440,13 @@ def scratch_rule(F, R):
                             if isinstance(v, int):
                                 val = v
                                 break
+                caller_len = any(x[0] == "call" and re.search(r"<impl \[T\]>::len$|Vec::<T, A>::len$|Vec<T, A>::len$", x[1]) for x in walk(sz)) \
+                    and any(t.startswith("param:") or t.startswith("env") for t in tk)
+                if dyn and not caller_len:
+                    R.ob("BUF-scmp", "%s: scratch size %s depends on run-time state other than a caller buffer's length — not decided" % (short(p), fmt(sz, 80)), True, False)
+                    continue
                 if dyn:
-                    why = "size depends on run-time values %s" % dyn[:4]
+                    why = "size depends on the length of a caller-supplied buffer (%s)" % ", ".join(dyn[:4])
                 elif val is None:
                     why = "size %s is not a resolvable constant" % fmt(sz, 80)
                 elif val < 1232:
